@@ -146,8 +146,13 @@ func genC16(concurrent bool) func(rng *Rng, sc *Scenario) {
 		}
 		base := op.Path
 		prog := []RegOp{}
-		if rng.Chance(1, 2) {
-			prog = append(prog, RegOp{Op: "use", MW: []string{"g0"}})
+		for i, n := 0, rng.Intn(4); i < n; i++ {
+			prog = append(prog, RegOp{Op: "use", MW: []string{fmt.Sprintf("g%d", i)}}) // separate Use calls: spare capacity in the shared slice
+		}
+		if rng.Chance(1, 3) {
+			prog = append(prog, RegOp{Op: "notfound", MW: []string{"n0", "n1"}})
+			sc.Handlers["n0"] = []Action{{Op: "next"}}
+			sc.Handlers["n1"] = []Action{{Op: "status", N: 404}, {Op: "write", S: "custom-404"}}
 		}
 		if rng.Chance(1, 3) {
 			prog = append(prog, RegOp{Op: "route", Via: "verb", Methods: []string{"GET"}, Path: "/other", H: "h0"})
@@ -411,6 +416,6 @@ func uniqSorted(ss []string) []string {
 
 func init() {
 	rule := "a run is non-trivial when the controller implements at least one action; run index r uses action subset r mod 128 and Uses() iff (r/128) is odd, so 256 consecutive runs cover all controller types"
-	register(&Profile{Prop: "C16", Name: "sequential", Quick: 2560, Thorough: 256 * 400, Gen: genC16(false), Check: checkC16, Rule: rule})
-	register(&Profile{Prop: "C16", Name: "concurrent", Quick: 1280, Thorough: 256 * 200, Gen: genC16(true), Check: checkC16, Rule: rule})
+	register(&Profile{Prop: "C16", Name: "sequential", Quick: 7680, Thorough: 256 * 400, Gen: genC16(false), Check: checkC16, Rule: rule})
+	register(&Profile{Prop: "C16", Name: "concurrent", Quick: 3840, Thorough: 256 * 200, Gen: genC16(true), Check: checkC16, Rule: rule})
 }
